@@ -344,6 +344,9 @@ class Interp:
                 st = st.clone()
                 st.conds.pop('nq', None)          # recomputed for this argument: unknown again
                 return [(st, 'fall')]
+            if t == self.OUT and not st.emits and ((isinstance(s.value, ast.List) and not s.value.elts) or
+                                                   (isinstance(s.value, ast.Call) and txt(s.value.func) == 'list' and not s.value.args)):
+                return [(st, 'fall')]           # the output list of a per-argument helper starts empty
             if t in (self.OUT, self.CH, self.ARG):
                 raise AnalysisError('T30: `%s` is re-bound inside the loop' % t)
             cv = self.count_value(s.value, st)
@@ -366,21 +369,48 @@ class Interp:
         raise AnalysisError('T30: statement `%s` is not understood' % txt(s)[:60])
 
 
-def check(ctx, fn, BUF, OUT, CH, NQ, rule='T30'):
-    """fn = FuncInfo of args2cmd with its roles already discovered."""
+def check(ctx, fn, BUF, OUT, CH, NQ, rule='T30', outer=None, helper_call=None):
+    """fn = FuncInfo holding the quoting state machine with its roles already discovered: args2cmd itself (the machine is the
+    body of its loop over the arguments), or a private per-argument helper (the machine is the helper's body; `outer` is
+    args2cmd and `helper_call` the call that hands one argument to the helper)."""
     mod = fn.module
     loc_ = lambda n: '%s:%d' % (mod.relpath, getattr(n, 'lineno', fn.node.lineno))       # noqa: E731
-    arg_loops = [n for n in ast.walk(fn.node) if isinstance(n, ast.For) and txt(n.target) != CH and
-                 any(isinstance(x, ast.For) and txt(x.target) == CH for x in n.body)]
-    if len(arg_loops) != 1:
-        raise AnalysisError('T30: expected one loop over the arguments directly containing the character loop')
-    al = arg_loops[0]
-    ARG = txt(al.target)
-    idx = next(i for i, x in enumerate(al.body) if isinstance(x, ast.For) and txt(x.target) == CH)
-    ch_loop = al.body[idx]
+    sep_stmts = None
+    if outer is None:
+        arg_loops = [n for n in ast.walk(fn.node) if isinstance(n, ast.For) and txt(n.target) != CH and
+                     any(isinstance(x, ast.For) and txt(x.target) == CH for x in n.body)]
+        if len(arg_loops) != 1:
+            raise AnalysisError('T30: expected one loop over the arguments directly containing the character loop')
+        al = arg_loops[0]
+        ARG = txt(al.target)
+        body = al.body
+    else:
+        # per-argument helper: its whole body is the machine; it returns the pieces of one argument
+        al = fn.node
+        ARG = fn.params[0] if fn.params else None
+        body = [st for st in fn.node.body if not (isinstance(st, ast.Expr) and isinstance(st.value, ast.Constant))]
+        if not (body and isinstance(body[-1], ast.Return) and txt(body[-1].value) == OUT):
+            raise AnalysisError('T30: the per-argument helper does not end by returning its output list')
+        body = body[:-1]
+        # the separator logic stays in the caller: the statements of its loop before the pieces of the argument are added
+        oloops = [n for n in ast.walk(outer.node) if isinstance(n, ast.For) and any(helper_call is x for x in ast.walk(n))]
+        if len(oloops) != 1:
+            raise AnalysisError('T30: the caller does not hand the arguments to the helper from one loop')
+        ol = oloops[0]
+        hs = next(st for st in ol.body if any(helper_call is x for x in ast.walk(st)))
+        if not (isinstance(hs, ast.Expr) and isinstance(hs.value, ast.Call) and isinstance(hs.value.func, ast.Attribute) and
+                hs.value.func.attr == 'extend' and hs.value.args and hs.value.args[0] is helper_call and
+                txt(helper_call.args[0]) == txt(ol.target)):
+            raise AnalysisError('T30: the pieces returned by the helper are not added with <out>.extend(helper(arg))')
+        OUTER_OUT = txt(hs.value.func.value)
+        sep_stmts = (ol.body[:ol.body.index(hs)], ol.body[ol.body.index(hs) + 1:], OUTER_OUT, ol)
+    idx = next((i for i, x in enumerate(body) if isinstance(x, ast.For) and txt(x.target) == CH), None)
+    if idx is None:
+        raise AnalysisError('T30: the character loop is not a direct statement of the per-argument code')
+    ch_loop = body[idx]
     if ch_loop.orelse or txt(ch_loop.iter) != ARG:
         raise AnalysisError('T30: the character loop is not a plain `for c in <argument>`')
-    prefix, suffix = al.body[:idx], al.body[idx + 1:]
+    prefix, suffix = body[:idx], body[idx + 1:]
     I = Interp(mod, fn, BUF, OUT, CH, NQ, ARG)
     K = lambda: Lin(1, 0)          # noqa: E731
 
@@ -436,12 +466,27 @@ def check(ctx, fn, BUF, OUT, CH, NQ, rule='T30'):
             'a quoted' if want_nq else 'an unquoted', 'twice, then the closing quote' if want_nq else 'once'), ok,
             suffix[0] if suffix else al, det)
     # -- start of an argument: buffer empty at the first character, separator and opening quote
+    if sep_stmts is not None:
+        before, after, OUTER_OUT, ol = sep_stmts
+        I2 = Interp(mod, outer, BUF, OUTER_OUT, CH, NQ, txt(ol.target))
+        souts = I2.run(before, State(Lin(0, 0)))
+        ok = bool(souts) and any('first' in st.conds for st, oc in souts)
+        det = ''
+        for st, oc in souts:
+            we = [] if st.conds.get('first', True) else [('lit', ' ')]
+            if st.normal(True) != we:
+                ok = False
+                det = 'first=%s emits %s' % (st.conds.get('first'), st.normal(True))
+        if after:
+            ok = False
+            det = 'statements after the pieces of an argument are added: not understood'
+        report('an argument is preceded by a blank unless it is the first (in the caller of the per-argument helper)', ok, ol, det)
     outs = I.run(prefix, State(Lin(1, 0)))
     reset_in_prefix = bool(outs) and all(st.pend.key() == (0, 0) for st, oc in outs)
     if not reset_in_prefix:
         # accepted alternative: reset at the end of every argument and before the first one
         ends = I.run(suffix, State(K()))
-        before = [n for n in fn.node.body if n.lineno < al.lineno]
+        before = [n for n in fn.node.body if n.lineno < al.lineno] if outer is None else []
         init = I.run([n for n in before if isinstance(n, ast.Assign) and txt(n.targets[0]) == BUF], State(K())) if before else []
         reset_in_prefix = bool(ends) and all(st.pend.key() == (0, 0) for st, oc in ends) and bool(init) and \
             all(st.pend.key() == (0, 0) for st, oc in init)
@@ -460,6 +505,6 @@ def check(ctx, fn, BUF, OUT, CH, NQ, rule='T30'):
         if got != we:
             ok = False
             det = 'first=%s quoted=%s emits %s' % (first, nq, show(st, True))
-    sep_tested = any('first' in st.conds for st, oc in outs)
+    sep_tested = any('first' in st.conds for st, oc in outs) or sep_stmts is not None
     report('an argument is preceded by a blank unless it is the first, and by an opening quote iff it is quoted',
            ok and sep_tested, prefix[0] if prefix else al, det)
